@@ -9,7 +9,8 @@ from .exprs import And, Assert, Call, Concat, Cond, Group, JoinL, Or, Str, Var, 
 
 CONSTRUCTS = ["and", "or", "which", "script", "interp", "none"]
 POSITIONS = ["assign", "default", "deparg", "interp", "fnarg", "condside", "branch", "assertmsg", "group", "joinop", "import", "submodule"]
-OPTINS = [("none", None), ("flag", None), ("set-root", None), ("set-module", None)] + [("env", v) for v in
+OPTINS = [("none", None), ("flag", None), ("set-root", None), ("set-module", None), ("set-true-module", None),
+          ("set-false-module", None), ("set-false-root", None)] + [("env", v) for v in
           ["1", "true", "yes", "x", "false", "0", "", "no", "off", "n", "f", "FALSE", "No"]]
 CMDS = [("run", ["r", "v"]), ("list", ["--list"]), ("summary", ["--summary"]), ("dump", ["--dump"]), ("show", ["--show", "r"]),
         ("evaluate", ["--evaluate"]), ("variables", ["--variables"]), ("groups", ["--groups"]), ("fmt", ["--fmt", "--check"]),
@@ -116,12 +117,17 @@ def build(case):
         assign = ""
         dep = "[group('script')]\nwhich:\n  [W]\n\nscript: which\n  [S]\n"
         imp += "[doc('uses && and ||')]\nscript-interpreter:\n  [SI]\n"
-    set_root = optkind == "set-root" or (optkind == "set-module" and where == "root")
-    set_sub = optkind == "set-module" and where == "sub"
+    set_root = optkind == "set-root" or (optkind in ("set-module", "set-true-module") and where == "root")
+    set_sub = optkind in ("set-module", "set-true-module") and where == "sub"
     if set_root:
-        root += "set unstable\n"
+        root += "set unstable := true\n" if optkind == "set-true-module" else "set unstable\n"
     if set_sub:
-        sub += "set unstable\n"
+        sub += "set unstable := true\n" if optkind == "set-true-module" else "set unstable\n"
+    # `set unstable := false` is no opt-in, wherever it stands
+    if optkind == "set-false-root" or (optkind == "set-false-module" and where == "root"):
+        root += "set unstable := false\n"
+    if optkind == "set-false-module" and where == "sub":
+        sub += "set unstable := false\n"
     root += "import 'imp.just'\nmod sub\n" + assign + "\n" + head + "\n" + body + "\n" + dep
     sub += "\nsr:\n  [SR]\n"
     files = {"justfile": root, "imp.just": imp + "\nir:\n  [IR]\n", "sub.just": sub}
@@ -260,7 +266,7 @@ def run(report):
     report.coverage.update({
         "evaluations": len(cases),
         "distinct_nontrivial": len(distinct),
-        "rule": "constructs {&&, ||, which(), [script], script-interpreter, none} x positions {assignment, parameter default, dependency argument, interpolation, function argument, condition side, branch, assert message, parentheses, path-join operand, imported file, submodule} x opt-ins {none, --unstable, set unstable in root, set unstable in the using module, JUST_UNSTABLE in 13 values} x 10 subcommands, and for runs x {loaded directly, found through `set fallback` from a subdirectory, the same with `set unstable` in the subdirectory's justfile}; %s; distinct = distinct (construct, position, opt-in, subcommand, outcome)" % ("complete" if tier == "thorough" else "random sample, space size in stats"),
+        "rule": "constructs {&&, ||, which(), [script], script-interpreter, none} x positions {assignment, parameter default, dependency argument, interpolation, function argument, condition side, branch, assert message, parentheses, path-join operand, imported file, submodule} x opt-ins {none, --unstable, set unstable in root, set unstable [:= true] in the using module, set unstable := false in root / in the using module, JUST_UNSTABLE in 13 values} x 10 subcommands, and for runs x {loaded directly, found through `set fallback` from a subdirectory, the same with `set unstable` in the subdirectory's justfile}; %s; distinct = distinct (construct, position, opt-in, subcommand, outcome)" % ("complete" if tier == "thorough" else "random sample, space size in stats"),
         "samples": samples,
         "exhaustive": tier == "thorough",
         "traces_validated_against_impl": len(cases),
